@@ -266,13 +266,38 @@ class FileHeaderRule(BaseLintRule):  # thailint: ignore[srp]
         atemporal_detector = AtemporalDetector()
         atemporal_violations = atemporal_detector.detect_violations(header)
 
+        file_lines = self._map_header_lines_to_file(header, context.file_content or "")
         for pattern, description, line_num in atemporal_violations:
             violations.append(
                 self._violation_builder.build_atemporal_violation(
-                    pattern, description, str(context.file_path or ""), line_num
+                    pattern,
+                    description,
+                    str(context.file_path or ""),
+                    file_lines.get(line_num, line_num),
                 )
             )
         return violations
+
+    @staticmethod
+    def _map_header_lines_to_file(header: str, file_content: str) -> dict[int, int]:
+        """Map 1-based line numbers of the extracted header text to line numbers of the file.
+
+        Parsers return the header without its delimiters (docstring quotes, comment markers,
+        leading blank lines), so a line number inside the header text is not a file line number.
+        Each non-blank header line is located, in order, in the file.
+        """
+        source_lines = file_content.splitlines()
+        mapping: dict[int, int] = {}
+        cursor = 0
+        for header_line_num, header_line in enumerate(header.split("\n"), start=1):
+            text = header_line.strip()
+            if not text:
+                continue
+            found = next((i for i in range(cursor, len(source_lines)) if text in source_lines[i]), None)
+            if found is not None:
+                mapping[header_line_num] = found + 1
+                cursor = found
+        return mapping
 
     def _filter_ignored_violations(
         self, violations: list[Violation], context: BaseLintContext
